@@ -223,9 +223,31 @@ CHECKS = {
         "the header write is not judged. A writer that only delays whole blocks is prefix-consistent and is not flagged.",
         "DESIGN.md section 3 C20",
     ),
+    "C19": (
+        "model_checking",
+        "stateless preemption-bounded schedule exploration + pairwise independence analysis on each kernel's own Python definition, bound to the compiled code by a conformance run",
+        "Each of the 11 parallel kernels (discovered from the AST of kernels.py) is re-instantiated from its own source with the prange loop split "
+        "into prelude/body(i)/postlude and all arrays wrapped in recording proxies. (1) For a lattice of shapes the read/write sets of every "
+        "iteration are recorded and all iteration pairs are checked for write-write / write-read overlap - if none exists every interleaving is "
+        "equivalent to the sequential one. (2) 2-3 virtual threads run every assignment of <= 3 (4) iterations under a scheduler with a "
+        "scheduling point before every access to a written array; all schedules with <= 2 (3) preemptions are executed and every terminal state "
+        "compared with the sequential result; a recorded schedule is replayed twice. (3) All permutations of <= 5 iterations. (4) The compiled "
+        "kernel under set_num_threads(1..16) x chunk sizes {0,1,2,5} x 5 repetitions must be bit-identical to one thread, to py_func and to numpy.",
+        "Native OpenMP/TBB schedules are sampled, not enumerated: the enumeration is over the Python definition; transfer relies on numba "
+        "sharing only array elements between iterations and on step 4. A body that assigns a name defined before the loop is reported as "
+        "undecided by step 2. New parallel kernels without a harness are reported as a cap.",
+        "DESIGN.md section 3 C19",
+    ),
 }
 
 ENGINES = [
+    {
+        "name": "schedules",
+        "path": "vf/core/sched.py",
+        "serves_properties": ["C19"],
+        "kind_free_text": "AST split of prange kernels, recording array proxies, pairwise independence analysis, baton-passing virtual threads with "
+        "CHESS-style iterative preemption bounding, replay determinism check",
+    },
     {
         "name": "crashstates",
         "path": "vf/props/c20.py",
@@ -236,14 +258,14 @@ ENGINES = [
     {
         "name": "statespace",
         "path": "vf/props/c02.py, vf/props/c10.py, vf/props/c17.py (BFS drivers) + vf/core/engine.py",
-        "serves_properties": [k for k, v in CHECKS.items() if v[0] == "model_checking"],
+        "serves_properties": [k for k, v in CHECKS.items() if v[0] == "model_checking" and k != "C19"],
         "kind_free_text": "explicit-state breadth-first search over operation histories of a real object; canonical state key from all "
         "mutable fields; every transition executed on the implementation and compared with a reference model",
     },
     {
         "name": "lattice",
         "path": "vf/core/engine.py",
-        "serves_properties": sorted(CHECKS),
+        "serves_properties": sorted(k for k, v in CHECKS.items() if v[0] == "exploration"),
         "kind_free_text": "sharded complete enumeration of a finite product of small domains, executed on the real code, "
         "compared with a numpy reference; outcome histogram + vacuity guard",
     },
@@ -265,7 +287,7 @@ def main() -> int:
                 "thorough_cmd": f"./check {pid} --tier thorough",
                 "evidence_file": f"/verif/evidence/{pid}.json",
                 "replay_cmd_template": f"./check {pid} --replay {{path}}",
-                "engine": "statespace" if cat == "model_checking" else "crashstates" if cat == "fault_enumeration" else "lattice",
+                "engine": "schedules" if pid == "C19" else "statespace" if cat == "model_checking" else "crashstates" if cat == "fault_enumeration" else "lattice",
                 "level_claimed": {"category": cat, "text": text, "design_ref": ref},
                 "level_note": note,
                 "technique": tech,
